@@ -136,7 +136,7 @@ def c15(tier, seed):
                 for rep in range(1 if tier == 'quick' else 3):
                     env = dict(os.environ)
                     env['TSAN_OPTIONS'] = 'exitcode=66 halt_on_error=0 report_signal_unsafe=0'
-                    r = subprocess.run([b2.exe, str(nt), str(seed * 100 + rep), str(iters), str(maxdim)], capture_output=True, text=True, env=env, timeout=3600)
+                    r = subprocess.run([b2.exe, str(nt), str(seed * 100 + rep), str(iters), str(maxdim)], capture_output=True, text=True, errors='replace', env=env, timeout=3600)
                     races = r.stderr.count('WARNING: ThreadSanitizer')
                     ok = r.returncode == 0 and 'result ok' in r.stdout and races == 0
                     runs.append(dict(threads=nt, iters=iters, sanitize=san, rc=r.returncode, races=races, ok=ok))
